@@ -58,7 +58,8 @@ class Peer:
         self.datagram = datagram
         self.reset_on_reconnect = stream_reset_on_reconnect
         self.q = []               # [due, bytes] in arrival order
-        self.rx_err = None        # None | "oserror" | "close"
+        self.rx_err = None        # None | "oserror" | "close"  (close: end of file once the queued bytes are read)
+        self.half = False
         self.tx_err = False
         self.refuse = 0           # number of connects to refuse
         self.script = []
@@ -99,8 +100,18 @@ class Peer:
             self.q.append([now + TIMEOUT + 5 * DELTA + 0.5, a["full"]])
         elif name == "oserror":
             self.rx_err = "oserror"
-        elif name == "close":
+        elif name == "close":              # peer closes before any reply byte
             self.rx_err = "close"
+        elif name == "close8":             # the first 8 bytes of the reply, then the peer closes
+            self.q.append([now, a["full"][:8]])
+            self.rx_err = "close"
+        elif name == "closek":             # k bytes reaching into the body, then the peer closes
+            k = 9 + p.get("k", 0) % max(len(a["full"]) - 9, 1)
+            self.q.append([now, a["full"][:k]])
+            self.rx_err = "close"
+        elif name == "halfclose":          # shutdown(SHUT_WR) by the peer: end of file on our side, nothing else
+            self.rx_err = "close"
+            self.half = True
         elif name == "twoframes":          # a good frame followed by a second one in the same read
             self.q.append([now, a["full"] + a["exc"]])
         elif name == "wrongthenown":       # a short frame of another unit, then the own (exception) reply, in one burst
@@ -182,14 +193,14 @@ class FakeSock:
         if p.rx_err == "oserror":
             p.rx_err = None
             raise ConnectionResetError(104, "scripted")
-        if p.rx_err == "close":
+        if p.rx_err == "close" and not p.avail():
             return b""
         return p.take(n)
 
     def recvfrom(self, n):
         import socket
         p = self.peer
-        if p.rx_err:
+        if p.rx_err and not p.avail():
             p.rx_err = None
             raise ConnectionRefusedError(111, "scripted")
         if not p.wait_readable(self.timeout):
@@ -221,7 +232,7 @@ class FakeSerial:
     def read(self, size):
         import serial
         p = self.peer
-        if p.rx_err:
+        if p.rx_err and not (p.rx_err == "close" and p.avail()):
             if p.rx_err == "oserror":
                 p.rx_err = None
             raise serial.SerialException("scripted")
